@@ -30,6 +30,45 @@ def judge_chunks(ctx, name, events, size=80000):
         judge(ctx, "%s_%d" % (name, k), chunk)
 
 
+def rnd_history(rnd):
+    """Pools of 4-6 regions, maps of up to 6 regions, removals of first / middle / last regions, re-insertions.
+    The driver assumes its constructions succeed; when one does not, later references are answered with `skipref`
+    by the executor and the history is cut there."""
+    base = rnd.choice([0, 0, 0x1000, (1 << 63) - 0x40, U64 - 0x200])
+    k = rnd.choice([4, 5, 6])
+    prog = [{"op": "init", "a": {}}]
+    regs = []
+    at = base
+    for i in range(k):
+        n = rnd.choice([1, 2, 3, 8, 16])
+        regs.append((at, n))
+        prog.append({"op": "new_region", "a": {"s": at, "n": n}})
+        at += n + rnd.choice([0, 0, 1, 5])
+    ids = list(range(1, k + 1))
+    prog.append({"op": "from_regions", "a": {"ids": ids}})
+    maps = [list(ids)]          # what each map should contain if everything succeeded
+    for _ in range(rnd.randint(3, 8)):
+        m = rnd.randint(1, len(maps))
+        cur = maps[m - 1]
+        c = rnd.random()
+        if c < 0.5 and cur:
+            r = rnd.choice([cur[0], cur[0], cur[len(cur) // 2], cur[-1], rnd.choice(cur)])
+            s0, n0 = regs[r - 1]
+            wrong = rnd.random() < 0.15
+            prog.append({"op": "remove_region", "a": {"m": m, "base": s0 + (1 if wrong and n0 > 1 else 0), "size": n0 + (1 if wrong and n0 == 1 else 0)}})
+            if not wrong:
+                maps.append([x for x in cur if x != r])
+        elif c < 0.8:
+            missing = [x for x in ids if x not in cur]
+            r = rnd.choice(missing) if missing and rnd.random() < 0.8 else rnd.choice(ids)
+            prog.append({"op": "insert_region", "a": {"m": m, "r": r}})
+            if r not in cur:
+                maps.append(sorted(cur + [r]))
+        elif cur:
+            prog.append({"op": "write_tag", "a": {"m": m, "i": rnd.randint(1, len(cur)), "val": rnd.randint(100, 250)}})
+    return prog
+
+
 def run(ctx):
     r = tlc_must_pass(TLA, os.path.join(SPEC, "MC_Regions.quick.cfg"), "mc_regions", workers=8, timeout=900)
     ctx.add_mc(r, "MC_Regions.quick.cfg")
@@ -58,6 +97,17 @@ def run(ctx):
     # hi universe: regions adjacent to the top of the address space, driven by TLC simulation traces mapped to
     # concrete addresses (the specification chooses operations that refer to existing maps / regions)
     hi(ctx)
+    nh = 400 if ctx.tier == "quick" else 8000
+    prog = []
+    for _ in range(nh):
+        prog += rnd_history(ctx.rnd)
+    events = run_harness("regions", prog, os.path.join(WORK, "rnd_regions.ev.ndjson"), ctx=ctx)
+    keep = []
+    for h in split_events(events):
+        cut = next((i for i, e in enumerate(h) if e["r"].get("k") == "skipref"), len(h))
+        keep += h[:cut]
+    judge_chunks(ctx, "rnd_regions", keep)
+    ctx.cov["traces_validated_against_impl"] += nh
     ctx.assumptions += [
         "histories are exhaustive up to 5 operations over 3 regions (quick) in a small start/length universe",
         "regions near 2^63 and 2^64 are covered by band-shifted replays of the same histories",
